@@ -217,7 +217,9 @@ inductive Val (α : Type) where
   | tree (name : String) (children : List (Val α))
 
 /-- Exact value of a decimal float literal (`[sign] digits [. digits] [e [sign] digits]`).
-    `none` when the exponent is too large to expand (|e| > 400). -/
+    A literal of decimal magnitude beyond 10^400 (resp. below 10^-400) is represented by
+    ±10^400 (resp. ±10^-400): both round to ±inf (resp. ±0.0) in binary64, as `float(text)` does,
+    without expanding an astronomically large power of ten. -/
 def decimalLiteral (t : String) : Option Rat :=
   let cs := t.toList
   let neg := match cs with | '-' :: _ => true | _ => false
@@ -228,75 +230,120 @@ def decimalLiteral (t : String) : Option Rat :=
     | '.' :: r => (r.takeWhile isDigit, r.drop (r.takeWhile isDigit).length)
     | _ => ([], cs)
   let e : Option Int := match cs with
-    | c :: r => if c == 'e' || c == 'E' then (String.ofList r).toInt? else none
+    | c :: r => if c == 'e' || c == 'E' then (String.ofList (match r with | '+' :: r' => r' | _ => r)).toInt? else none
     | [] => some 0
   match e with
   | none => none
   | some e =>
-    if e > 400 || e < -400 then none else
     let digits := ip ++ fp
     let n : Nat := digits.foldl (fun a c => a * 10 + (c.toNat - 48)) 0
     let e' : Int := e - fp.length
-    let v : Rat := if e' ≥ 0 then ((n * 10 ^ e'.toNat : Nat) : Rat) else (n : Rat) / ((10 ^ (-e').toNat : Nat) : Rat)
+    -- the value lies in [10^(mag10-1), 10^mag10)
+    let mag10 : Int := (digits.dropWhile (· == '0')).length + e'
+    let v : Rat :=
+      if n == 0 then 0
+      else if mag10 > 401 then ((10 ^ 400 : Nat) : Rat)
+      else if mag10 < -400 then 1 / ((10 ^ 400 : Nat) : Rat)
+      else if e' ≥ 0 then ((n * 10 ^ e'.toNat : Nat) : Rat) else (n : Rat) / ((10 ^ (-e').toNat : Nat) : Rat)
     some (if neg then -v else v)
 
-/-- `int(text)` on Python's side raises ValueError beyond `sys.get_int_max_str_digits()`. -/
+/-- `parsing._integer(text)`: `int(text)` raises ValueError beyond `sys.get_int_max_str_digits()`,
+    which the transformer turns into a ParseError (after the `fix:` commit). -/
 def intMaxStrDigits : Nat := 4300
 
 def pyInt (t : String) : Except Exc Int :=
   let digits := (t.toList.filter isDigit).length
-  if digits > intMaxStrDigits then .error .valueError
+  if digits > intMaxStrDigits then .error .parseError
   else
     let body := if t.startsWith "+" then (t.drop 1).toString else t
     match body.toInt? with
     | some i => .ok i
-    | none => .error .valueError
+    | none => .error .parseError
 
-/-- The callbacks of `QuantityTransformer`, keyed by alias / origin. -/
-def transformerAct (c : Conv α) (r : GRule) (args : List (Val α)) : Conv α × Except Exc (Val α) :=
-  -- lark's child filter: `_`-terminals dropped, `_`-rule trees inlined
-  let kids := args.flatMap (fun a =>
+/-- lark's child filter: `_`-terminals dropped, `_`-rule trees inlined. -/
+def filterKids (args : List (Val α)) : List (Val α) :=
+  args.flatMap (fun a =>
     match a with
     | .tok t => if t.type.startsWith "_" then [] else [a]
     | .tree n ch => if n.startsWith "_" then ch else [a]
     | a => [a])
-  let name := r.alias.getD r.origin
-  let run {β} (m : CM α β) (k : β → Val α) : Conv α × Except Exc (Val α) :=
-    let (res, c') := (m.run).run c
-    (c', res.map k)
-  match name, kids with
-  | "int", [.tok t] => (c, (pyInt t.text).map (fun i => .mag (.int i)))
-  | "float", [.tok t] =>
-      (match decimalLiteral t.text with
-       | some q => (c, .ok (.mag (.flt (FloatLike.ofRat q))))
-       | none => (c, .error .unmodelled))
-  | "carat_exponent", [.tok t] => (c, (pyInt (t.text.drop 1).toString).map .exp)
-  | "superscript_exponent", [.tok t] =>
-      (match t.text.toList.mapM fromSuperDigit with
-       | some cs => (c, (pyInt (String.ofList cs)).map .exp)
-       | none => (c, .error .keyError))
-  | "term", [.tok t] =>
-      run (do let u ← liftStE (fun s => s.resolveSymbol t.text)
-              liftSt (fun s => s.powUnit u 1)) .unit
-  | "term", [.tok t, .exp n] =>
-      run (do let u ← liftStE (fun s => s.resolveSymbol t.text)
-              liftSt (fun s => s.powUnit u n)) .unit
-  | "unit_sequence", (.unit u) :: rest =>
-      run (rest.foldlM (fun acc v => match v with
-            | .unit w => liftStE (fun s => s.mulUnit acc w)
-            | _ => throw .unmodelled) u) .unit
-  | "unit", [.unit n] => run (do let one := (← getSt).one; liftStE (fun s => s.divUnit n one)) .unit
-  | "unit", [.unit n, .unit d] => run (liftStE (fun s => s.divUnit n d)) .unit
-  | "quantity", [.mag m, .unit u] => (c, .ok (.qty { mag := m, unit := u }))
-  | name, kids =>
-      if name.startsWith "_" then (c, .ok (.tree name kids)) else (c, .error .unmodelled)
 
-def parseStart (g : Grammar) (start stop : Nat) (t : String) : CM α (Val α) := do
-  let c ← getThe (Conv α)
-  let lc := mkLexConf g.lexOrder g.ignore
-  let (c', r) := parseWith g.table g.rules start stop lc transformerAct Val.tok c t
-  set c'
-  liftE r
+/-- `reduce(operator.mul, terms)`. -/
+def mulAll (s : St) (acc : UId) : List (Val α) → St × Except Exc UId
+  | [] => (s, .ok acc)
+  | .unit w :: rest =>
+    match s.mulUnit acc w with
+    | (s', .ok u) => mulAll s' u rest
+    | (s', .error e) => (s', .error e)
+  | _ :: _ => (s, .error .unmodelled)
+
+/-- `Unit.resolve_symbol(symbol) ** exponent`. -/
+def termUnit (s : St) (sym : String) (n : Int) : St × Except Exc UId :=
+  match s.resolveSymbol sym with
+  | (s', .ok u) => let (s'', v) := s'.powUnit u n; (s'', .ok v)
+  | (s', .error e) => (s', .error e)
+
+def wrapUnit (x : St × Except Exc UId) : St × Except Exc (Val α) := (x.1, x.2.map Val.unit)
+
+/-! The callbacks of `QuantityTransformer`, one per alias / origin.  They act on the unit
+    table only (interning), never on the conversion graph. -/
+
+def actInt (s : St) : List (Val α) → St × Except Exc (Val α)
+  | [.tok t] => (s, (pyInt t.text).map (fun i => .mag (.int i)))
+  | _ => (s, .error .unmodelled)
+
+def actFloat (s : St) : List (Val α) → St × Except Exc (Val α)
+  | [.tok t] =>
+      (match decimalLiteral t.text with
+       | some q => (s, .ok (.mag (.flt (FloatLike.ofRat q))))
+       | none => (s, .error .unmodelled))
+  | _ => (s, .error .unmodelled)
+
+def actCarat (s : St) : List (Val α) → St × Except Exc (Val α)
+  | [.tok t] => (s, (pyInt (t.text.drop 1).toString).map .exp)
+  | _ => (s, .error .unmodelled)
+
+def actSuperscript (s : St) : List (Val α) → St × Except Exc (Val α)
+  | [.tok t] =>
+      (match t.text.toList.mapM fromSuperDigit with
+       | some cs => (s, (pyInt (String.ofList cs)).map .exp)
+       | none => (s, .error .keyError))
+  | _ => (s, .error .unmodelled)
+
+def actTerm (s : St) : List (Val α) → St × Except Exc (Val α)
+  | [.tok t] => wrapUnit (termUnit s t.text 1)
+  | [.tok t, .exp n] => wrapUnit (termUnit s t.text n)
+  | _ => (s, .error .unmodelled)
+
+def actSequence (s : St) : List (Val α) → St × Except Exc (Val α)
+  | (.unit u) :: rest => wrapUnit (mulAll s u rest)
+  | _ => (s, .error .unmodelled)
+
+def actUnit (s : St) : List (Val α) → St × Except Exc (Val α)
+  | [.unit n] => wrapUnit (s.divUnit n s.one)
+  | [.unit n, .unit d] => wrapUnit (s.divUnit n d)
+  | _ => (s, .error .unmodelled)
+
+def actQuantity (s : St) : List (Val α) → St × Except Exc (Val α)
+  | [.mag m, .unit u] => (s, .ok (.qty { mag := m, unit := u }))
+  | _ => (s, .error .unmodelled)
+
+def transformerAct (s : St) (r : GRule) (args : List (Val α)) : St × Except Exc (Val α) :=
+  let kids := filterKids args
+  let name := r.alias.getD r.origin
+  if name = "int" then actInt s kids
+  else if name = "float" then actFloat s kids
+  else if name = "carat_exponent" then actCarat s kids
+  else if name = "superscript_exponent" then actSuperscript s kids
+  else if name = "term" then actTerm s kids
+  else if name = "unit_sequence" then actSequence s kids
+  else if name = "unit" then actUnit s kids
+  else if name = "quantity" then actQuantity s kids
+  else if name.startsWith "_" then (s, .ok (.tree name kids))     -- helper rules: inlined later
+  else (s, .error .unmodelled)
+
+def parseStart (g : Grammar) (start stop : Nat) (t : String) : CM α (Val α) :=
+  liftStE (fun s => parseWith g.table g.rules start stop (mkLexConf g.lexOrder g.ignore) transformerAct Val.tok s t)
 
 /-- `Unit.parse`. -/
 def parseUnit (g : Grammar) (t : String) : CM α UId := do
